@@ -211,6 +211,36 @@ def main():
         except BaseException as e:  # noqa
             o0 = ["ctor-exc", type(e).__name__, str(e)[:200]]
     import isolate
+    if job.get("overlaps") and not sub:
+        # several parser objects of this process alive at once: all constructed first, then run in reverse order.  Executed
+        # in a forked child taken right after the first parser object was constructed (before anything was parsed), so its
+        # history is the same in every incarnation; the same little history under a valid cache is the baseline, so only a
+        # dependence on the CACHE STATE (e.g. objects sharing freshly generated tables) can make a difference here.
+        def overlap_phase():
+            digs = []
+            for group in job["overlaps"]:
+                objs = []
+                for it in group:
+                    try:
+                        objs.append(DDLParser(it["ddl"], **it.get("flags", {})))
+                    except BaseException as e:  # noqa
+                        objs.append(e)
+                outs_ = []
+                for it, p in reversed(list(zip(group, objs))):
+                    if isinstance(p, BaseException):
+                        outs_.append(["ctor-exc", type(p).__name__])
+                        continue
+                    try:
+                        outs_.append(["ok", core.canon(p.run(**it.get("run", {})))])
+                    except BaseException as e:  # noqa
+                        outs_.append(core.outcome_of_exception(e))
+                digs.append([core.digest_of(o)[:20] for o in outs_])
+                del objs
+            return digs
+        try:
+            res["overlap_digests"] = isolate.run_isolated(overlap_phase, timeout=300)
+        except RuntimeError as e:
+            res["overlap_digests"] = [["harness", str(e)[:100]]]
     outs = [None] * len(items)
     for n, it in enumerate(items):
         if n == 0:
@@ -237,29 +267,6 @@ def main():
         res["digests"].append(core.digest_of(o)[:20])
         if n in want or job.get("all_outcomes"):
             res["outcomes"][str(n)] = core.short(o, 1500)
-    if job.get("overlaps") and not sub:
-        # several parser objects of this process alive at once: all constructed first, then run in reverse order.  The
-        # same little history is executed under a valid cache for the baseline, so only a dependence on the CACHE STATE
-        # (e.g. objects sharing freshly generated tables) can make a difference here.
-        res["overlap_digests"] = []
-        for group in job["overlaps"]:
-            objs = []
-            for it in group:
-                try:
-                    objs.append(DDLParser(it["ddl"], **it.get("flags", {})))
-                except BaseException as e:  # noqa
-                    objs.append(e)
-            outs = []
-            for it, p in reversed(list(zip(group, objs))):
-                if isinstance(p, BaseException):
-                    outs.append(["ctor-exc", type(p).__name__])
-                    continue
-                try:
-                    outs.append(["ok", core.canon(p.run(**it.get("run", {})))])
-                except BaseException as e:  # noqa
-                    outs.append(core.outcome_of_exception(e))
-            res["overlap_digests"].append([core.digest_of(o)[:20] for o in outs])
-            del objs
     if job.get("reference_table") and not sub:
         # the tables a parser of this process RUNS WITH, after the process parsed a batch of scripts one after another
         # (no forks): they must still be exactly the tables of the declared grammar
